@@ -226,6 +226,139 @@ def s5_wal_threshold(src_text, stats):
             + region + "\n    (" + arg + ") as u64\n}\n")
 
 
+
+def split_match_arms(body):
+    """split the text between the braces of a `match` into arms [(pattern, expr)] (depth-0 `=>` and `,`)."""
+    arms, i, n = [], 0, len(body)
+
+    def skip_ws_comments(i):
+        while i < n:
+            if body[i].isspace():
+                i += 1
+            elif body.startswith("//", i):
+                i = body.index("\n", i) + 1
+            else:
+                break
+        return i
+
+    def scan(i, stop):
+        """advance to the first depth-0 occurrence of one of the stop strings; returns (index, which)"""
+        depth = 0
+        while i < n:
+            ch = body[i]
+            if ch == '"':
+                i += 1
+                while body[i] != '"':
+                    i += 2 if body[i] == "\\" else 1
+            elif ch == "'" and re.match(r"'(\\.|[^\\'])'", body[i:i + 4]):
+                i += len(re.match(r"'(\\.|[^\\'])'", body[i:i + 4]).group(0)) - 1
+            elif body.startswith("//", i):
+                i = body.index("\n", i)
+            elif ch in "([{":
+                depth += 1
+            elif ch in ")]}":
+                depth -= 1
+            elif depth == 0:
+                for st in stop:
+                    if body.startswith(st, i):
+                        return i, st
+            i += 1
+        return n, None
+
+    while True:
+        i = skip_ws_comments(i)
+        if i >= n:
+            break
+        j, st = scan(i, ["=>"])
+        if st is None:
+            die("S6: match arm without `=>`")
+        pat = body[i:j].strip()
+        k = skip_ws_comments(j + 2)
+        if body[k] == "{":
+            depth, e = 0, k
+            while True:
+                e2, _ = scan(e + 1, ["}"]) if False else (None, None)
+                break
+            # brace-matched block
+            depth, e = 0, k
+            while e < n:
+                ch = body[e]
+                if ch == '"':
+                    e += 1
+                    while body[e] != '"':
+                        e += 2 if body[e] == "\\" else 1
+                elif ch == "'" and re.match(r"'(\\.|[^\\'])'", body[e:e + 4]):
+                    e += len(re.match(r"'(\\.|[^\\'])'", body[e:e + 4]).group(0)) - 1
+                elif body.startswith("//", e):
+                    e = body.index("\n", e)
+                elif ch == "{":
+                    depth += 1
+                elif ch == "}":
+                    depth -= 1
+                    if depth == 0:
+                        break
+                e += 1
+            expr = body[k:e + 1]
+            i = skip_ws_comments(e + 1)
+            if i < n and body[i] == ",":
+                i += 1
+        else:
+            e, st = scan(k, [","])
+            expr = body[k:e].strip()
+            i = e + 1
+        arms.append((pat, expr))
+    return arms
+
+
+S6_ALPHABET = ["Ping", "Get", "Set", "SetNx", "Append", "StrLen", "Incr", "Decr", "IncrBy", "DecrBy", "Del", "Exists", "TypeOf", "Expire", "Ttl",
+               "LPush", "RPush", "LPop", "RPop", "LLen", "SAdd", "SRem", "SCard", "HSet", "HGet", "HDel", "HLen",
+               "Multi", "Exec", "Discard", "Watch", "Unwatch"]
+
+
+def s6_small_dispatch(src_text, stats):
+    """S6: CommandExecutor::execute with its final `match cmd` restricted to the arms of a fixed command alphabet
+    (every statement before the match - counters, transaction queueing - and the text of the kept arms are copied
+    verbatim; every other arm becomes a panic). The 200-arm match is what made symbolic execution through
+    execute() run out of memory; harnesses substitute this function for execute() (Kani function stub), so that
+    EXEC's replay loop, which calls self.execute(), goes through it too."""
+    f = extract_fn(src_text, "execute")
+    if f is None:
+        die("S6: fn execute not found in executor/mod.rs")
+    idx = f.rfind("\n        match cmd {")
+    if idx < 0 or f.count("\n        match cmd {") < 1:
+        die("S6: execute() has no top-level `match cmd`")
+    head = f[:idx]
+    mstart = f.index("{", idx + 1 + len("        match cmd ")) 
+    # the match is the tail expression: its closing brace is the one before the function's closing brace
+    tail = f[mstart + 1:]
+    end = tail.rstrip()
+    if not end.endswith("}"):
+        die("S6: unexpected end of execute()")
+    end = end[:-1].rstrip()
+    if not end.endswith("}"):
+        die("S6: the `match cmd` is not the tail expression of execute()")
+    body = end[:-1]
+    arms = split_match_arms(body)
+    if len(arms) < 100:
+        die("S6: fewer dispatch arms than expected (%d)" % len(arms))
+    kept, seen = [], set()
+    for pat, expr in arms:
+        names = re.findall(r"Command::([A-Za-z0-9_]+)", pat)
+        if names and all(nm in S6_ALPHABET for nm in names):
+            kept.append("            %s => %s,\n" % (pat, expr))
+            seen.update(names)
+    missing = [a for a in S6_ALPHABET if a not in seen]
+    if missing:
+        die("S6: dispatch arms not found for %s" % missing)
+    sig_end = head.index("{")
+    sig = re.sub(r"pub fn execute\b", "pub fn verif_execute_small", head[:sig_end])
+    stats["s6"] = len(kept)
+    return ("\n// ---- S6: generated by /verif/stage/stage.py (execute() restricted to a command alphabet; text copied) ----\n"
+            "impl CommandExecutor {\n    #[allow(dead_code, unused_variables, unreachable_patterns, clippy::all)]\n" + sig + head[sig_end:]
+            + "\n        match cmd {\n" + "".join(kept)
+            + "            _ => panic!(\"verif: command outside the modelled alphabet\"),\n        }\n    }\n}\n")
+
+
 def write_if_changed(path, data):
     if os.path.exists(path):
         with open(path, "rb") as f:
@@ -240,7 +373,7 @@ def write_if_changed(path, data):
 def main():
     repo, dest = sys.argv[1], sys.argv[2]
     model_path = os.path.abspath(os.path.join(os.path.dirname(__file__), "..", "models", COLL))
-    stats = {"s1": 0, "s2": 0, "s3": 0, "s4": 0, "s5": 0, "files": 0, "files_substituted": 0, "rewritten": 0}
+    stats = {"s1": 0, "s2": 0, "s3": 0, "s4": 0, "s5": 0, "s6": 0, "files": 0, "files_substituted": 0, "rewritten": 0}
     wanted = set()
     h = hashlib.sha256()
     for root, dirs, files in os.walk(os.path.join(repo, "src")):
@@ -259,6 +392,8 @@ def main():
                 text = subst_memchr(text, stats)
                 if rel == "src/production/connection_optimized.rs":
                     text += s3_collectors(text, stats)
+                if rel == "src/redis/executor/mod.rs":
+                    text += s6_small_dispatch(text, stats)
                 if rel == "src/streaming/recovery.rs":
                     text += s5_wal_threshold(text, stats)
                 if rel == "src/production/mod.rs":
